@@ -281,7 +281,8 @@ def tlc(module, cfg=None, env=None, workers=1, timeout=600, simulate=None, depth
        (simulate and p.returncode == 0) or re.search(r"Finished in ", r.out) and p.returncode == 0:
         r.ok = True
         return r
-    r.error = "tlc exit %d: %s" % (p.returncode, r.out[-3000:])
+    m = re.search(r"Error: (?!The behavior)(.*)", r.out)
+    r.error = "tlc exit %d: %s ... %s" % (p.returncode, m.group(0)[:600] if m else "", r.out[-800:])
     return r
 
 
